@@ -9,7 +9,7 @@ style lists) is checked against the implementation's states by `spec.text_hist_o
 import os
 from common import s2t, t2s
 
-OPS = {"text_hist": {}, "strip": {}}
+OPS = {"text_hist": {}, "store_hist": {}, "strip": {}}
 
 # 1 = behaviour with the proposed fixes applied (see notes/C05.md); VERIF_C05_ASIS=1 -> code as found
 FIXBITS = [0] * 9 if os.environ.get("VERIF_C05_ASIS") else [1] * 9
@@ -198,6 +198,103 @@ def rhist(rng, wild, maxops=12):
     return [init, ops[:maxops]]
 
 
+
+PRODUCING = (5, 6, 7, 8, 9, 10, 11, 22, 23)      # operations that return a Text instead of editing in place
+
+
+def rinit(rng, wild=False):
+    s = rstr(rng, 10)
+    n = len(clean(s))
+    meta = [rng.choice([0, 0, 0, rng.randint(1, 6)]), rng.randint(0, 5) if rng.random() < 0.3 else 0,
+            rng.randint(0, 4) if rng.random() < 0.4 else 0, rng.randint(0, 2) if rng.random() < 0.2 else 0,
+            s2t(rng.choice(["\n", "\n", "", " "])), rng.choice([[8], [8], [4], [], [1], [3]])]
+    sp = rspans(rng, n, wild)
+    if not wild and not sp and n and rng.random() < 0.7:     # aliasing of span lists needs spans to show
+        a = rng.randint(0, n - 1)
+        sp = [[a, rng.randint(a + 1, n), rng.randint(1, 6)]]
+    return [s2t(s), meta, sp], n
+
+
+def rstore(rng, wild=False, maxops=12):
+    """history over a store of named Text values: copies and other derived values stay alive next to
+    their source, either may then be edited, and every live value is observed after every step"""
+    inits, ests = [], []
+    for _ in range(rng.choice([1, 1, 2, 3])):
+        i, n = rinit(rng, wild and rng.random() < 0.5)
+        inits.append(i)
+        ests.append(n)
+    sops = []
+    while len(sops) < maxops:
+        n = len(ests)
+        x = rng.randrange(n)
+        c = rng.random()
+        if c < 0.22 or (len(sops) == 0 and c < 0.6):
+            # y := a value derived from x with nothing cut (copy, t[:], split/divide with nothing to cut)
+            y = rng.choice([n, n, n, rng.randrange(n)])
+            o = rng.choice([[22], [22], [22], [11, [], []], [9, [], 0], [8, s2t("\x00\x00"), 0, 0, 0]])
+            sops.append([1, y, x, o])
+            if y == n:
+                ests.append(ests[x])
+            else:
+                ests[y] = ests[x]
+        elif c < 0.62:
+            # edit x in place (or derive a value from it)
+            for _ in range(20):
+                o, e = rop(rng, ests[x], wild)
+                if o[0] != 29:
+                    break
+            if o[0] in PRODUCING:
+                y = rng.choice([n, n, x, rng.randrange(n)])
+                sops.append([1, y, x, o])
+                if y == n:
+                    ests.append(e)
+                else:
+                    ests[y] = e
+            else:
+                sops.append([1, x if (not wild or rng.random() < 0.9) else n, x, o])
+                ests[x] = e
+        elif c < 0.70:
+            if rng.random() < 0.5:
+                sep = rng.choice(["\n", "\t", " ", "a", "b", "ab"])
+                o = [8, s2t(sep), rng.randint(0, 1), rng.randint(0, 1), 0]
+            else:
+                o = [9, sorted(roff(rng, ests[x]) for _ in range(rng.randint(0, 3))), 0]
+            sops.append([2, x, o])
+            ests.append(max(0, ests[x] // 2))          # at least one new slot; later indices may miss -> IndexError
+        elif c < 0.82:
+            z = rng.randrange(n)
+            if z == x and n > 1 and rng.random() < 0.9:
+                z = (x + 1) % n
+            sops.append([rng.choice([3, 4]), x, z])
+            ests[x] += ests[z]
+        elif c < 0.87:
+            # x.copy_styles(copy of x, possibly restyled): same length by construction
+            sops.append([1, n, x, [22]])
+            ests.append(ests[x])
+            if rng.random() < 0.6 and len(sops) < maxops - 1:
+                sops.append([1, n, n, [26, rng.randint(1, 6), ridx(rng, ests[x]), ropt(rng, ridx(rng, ests[x]))]])
+            sops.append([5, x, n])
+        elif c < 0.94:
+            lines = [rng.randrange(n) for _ in range(rng.randint(0, 3))]
+            y = rng.choice([n, n, rng.randrange(n)])
+            sops.append([6, y, rng.randrange(n), lines])
+            e = sum(ests[i] for i in lines) + 2
+            if y == n:
+                ests.append(e)
+            else:
+                ests[y] = e
+        else:
+            parts = [rng.randrange(n) for _ in range(rng.randint(0, 3))]
+            y = rng.choice([n, n, rng.randrange(n)])
+            sops.append([7, y, rng.randint(0, 6), parts])
+            e = sum(ests[i] for i in parts)
+            if y == n:
+                ests.append(e)
+            else:
+                ests[y] = e
+    return [inits, sops[:maxops]]
+
+
 def generate(rng, tier):
     cases = []
     k = 1 if tier == "quick" else 25
@@ -207,6 +304,10 @@ def generate(rng, tier):
         cases.append(("text_hist", rhist(rng, wild=True)))
     for _ in range(600 * k):    # short histories: single operations at the boundaries
         cases.append(("text_hist", rhist(rng, wild=rng.random() < 0.2, maxops=2)))
+    for _ in range(2500 * k):   # several live values: copies / derived values next to their source
+        cases.append(("store_hist", rstore(rng, wild=False, maxops=rng.choice([3, 6, 12]))))
+    for _ in range(300 * k):
+        cases.append(("store_hist", rstore(rng, wild=True)))
     for _ in range(100 * k):
         cases.append(("strip", s2t(rstr(rng, 12, ALPHA))))
     return cases
@@ -269,6 +370,39 @@ _SCHEMA = {
     28: [lambda x: _isstr(x) and len(x) > 0, lambda k: _style_ok(k) and k > 0], 29: [_istarg],
 }
 TRIVIAL = [[[], [0, 0, 0, 0, [10], [8]], []], []]
+TRIVIAL_STORE = [[[[], [0, 0, 0, 0, [10], [8]], []]], []]
+
+
+def _isnat(x):
+    return _isint(x) and 0 <= x <= 64
+
+
+def _init_ok(init):
+    s, m, sp = init
+    return (_isstr(s) and isinstance(m, list) and len(m) == 6 and _style_ok(m[0]) and m[1] in range(6) and m[2] in range(5)
+            and m[3] in range(3) and _isstr(m[4]) and _isopt(m[5]) and _isspans(sp))
+
+
+def _op_ok(o):
+    sch = _SCHEMA.get(o[0]) if isinstance(o, list) and o and _isint(o[0]) else None
+    return sch is not None and len(o) == len(sch) + 1 and all(f(v) for f, v in zip(sch, o[1:]))
+
+
+_SSCHEMA = {1: [_isnat, _isnat, _op_ok], 2: [_isnat, _op_ok], 3: [_isnat, _isnat], 4: [_isnat, _isnat], 5: [_isnat, _isnat],
+            6: [_isnat, _isnat, lambda x: _islist(x, _isnat)], 7: [_isnat, _style_ok, lambda x: _islist(x, _isnat)]}
+
+
+def _wfs(arg):
+    try:
+        inits, sops = arg
+        ok = isinstance(inits, list) and len(inits) >= 1 and all(_init_ok(i) for i in inits) and isinstance(sops, list)
+        for o in sops:
+            sch = _SSCHEMA.get(o[0]) if isinstance(o, list) and o and _isint(o[0]) else None
+            ok = ok and sch is not None and len(o) == len(sch) + 1 and all(f(v) for f, v in zip(sch, o[1:]))
+        return arg if ok else TRIVIAL_STORE
+    except Exception:
+        return TRIVIAL_STORE
+
 
 
 def _wf(arg):
@@ -434,16 +568,121 @@ def _apply(t, o):
     return t
 
 
+def _mk(init):
+    from rich.text import Text
+    m = init[1]
+    return Text(t2s(init[0]), style=_style(m[0]), justify=JUSTIFY[m[1]], overflow=OVERFLOW[m[2]], no_wrap=NOWRAP[m[3]],
+                end=t2s(m[4]), tab_size=(m[5][0] if m[5] else None), spans=_spans(init[2]))
+
+
+def _put(store, y, v):
+    if y < len(store):
+        store[y] = v
+    else:
+        store.append(v)
+
+
+def _sapply(store, o):
+    """one store operation on real Text OBJECTS; the other objects stay alive and are observed afterwards"""
+    from rich.text import Text
+    k = o[0]
+    if k == 1:
+        y, x, op = o[1], o[2], o[3]
+        t = store[x]
+        if op[0] not in PRODUCING and y != x:
+            raise RuntimeError("in-place operation cannot bind another name")
+        _put(store, y, _apply(t, op))
+    elif k == 2:
+        t = store[o[1]]
+        op = o[2]
+        if op[0] == 8:
+            lines = t.split(t2s(op[1]), include_separator=bool(op[2]), allow_blank=bool(op[3]))
+        elif op[0] == 9:
+            lines = t.divide(op[1])
+        else:
+            raise RuntimeError("not a Lines operation")
+        store.extend(list(lines))
+    elif k in (3, 4, 5):
+        t, z = store[o[1]], store[o[2]]
+        if o[1] == o[2]:
+            raise RuntimeError("self argument")
+        if k != 5 and t._spans is z._spans:
+            # two distinct live objects share one span list: extend(generator over itself) would never
+            # end.  Skip the operation; the model performs it, so the states differ and the case is reported.
+            raise RuntimeError("aliased span list")
+        if k == 3:
+            t.append(z)
+        elif k == 4:
+            t.append_text(z)
+        else:
+            t.copy_styles(z)
+    elif k == 6:
+        sep = store[o[2]]
+        lines = [store[i] for i in o[3]]
+        _put(store, o[1], sep.join(lines))
+    elif k == 7:
+        parts = [store[i] for i in o[3]]
+        _put(store, o[1], Text.assemble(*parts, style=_style(o[2])))
+    else:
+        raise KeyError(k)
+
+
+def _oc(e):
+    from common import CRASH_ERRORS, DOC_ERRORS
+    name = type(e).__name__
+    return 100 + DOC_ERRORS[name] if name in DOC_ERRORS else 200 + CRASH_ERRORS.get(name, 99)
+
+
+_guarded = []
+
+
+def _guard():
+    """the implementation under test may be broken in ways that do not terminate or eat memory"""
+    if _guarded:
+        return
+    _guarded.append(1)
+    try:
+        import resource, signal
+        resource.setrlimit(resource.RLIMIT_AS, (3 << 30, 3 << 30))
+
+        def _alarm(signum, frame):
+            raise TimeoutError("case took too long")
+        signal.signal(signal.SIGALRM, _alarm)
+    except Exception:
+        pass
+
+
 def impl(op, arg):
+    from common import CRASH_ERRORS, DOC_ERRORS
+    _guard()
+    import signal
+    signal.alarm(20)
+    try:
+        return _impl(op, arg)
+    finally:
+        signal.alarm(0)
+
+
+def _impl(op, arg):
     from common import CRASH_ERRORS, DOC_ERRORS
     if op == "strip":
         from rich.control import strip_control_codes
         return s2t(strip_control_codes(t2s(arg)))
+    if op == "store_hist":
+        inits, sops = _wfs(arg)
+        store = [_mk(i) for i in inits]
+        out = [[_state(t) for t in store]]
+        for o in sops:
+            oc = 0
+            try:
+                _sapply(store, o)
+            except Exception as e:  # noqa
+                oc = _oc(e)
+            out.append([oc, [_state(t) for t in store]])
+        return out
     from rich.text import Text
     init, ops = _wf(arg)
-    m = init[1]
-    t = Text(t2s(init[0]), style=_style(m[0]), justify=JUSTIFY[m[1]], overflow=OVERFLOW[m[2]], no_wrap=NOWRAP[m[3]],
-             end=t2s(m[4]), tab_size=(m[5][0] if m[5] else None), spans=_spans(init[2]))
+    t = _mk(init)
     out = [_state(t)]
     for o in ops:
         oc = 0
@@ -461,11 +700,19 @@ def model_case(op, arg):
     if op == "text_hist":
         arg = _wf(arg)
         return op, [FIXBITS, arg[0], arg[1]]
+    if op == "store_hist":
+        arg = _wfs(arg)
+        return op, [FIXBITS, arg[0], arg[1]]
     return op, arg
 
 
 def spec_cases(op, arg, out):
-    if isinstance(out, dict) or op != "text_hist":
+    if isinstance(out, dict):
+        return []
+    if op == "store_hist":
+        arg = _wfs(arg)
+        return [("spec.store_hist_ok", [arg[0], arg[1], out])]
+    if op != "text_hist":
         return []
     arg = _wf(arg)
     return [("spec.text_hist_ok", [arg[0], arg[1], out])]
@@ -473,6 +720,8 @@ def spec_cases(op, arg, out):
 
 def describe(op, arg):
     try:
+        if op == "store_hist":
+            return "store of %d Text values, steps %r" % (len(arg[0]), [o[:3] if o[0] != 1 else [o[1], o[2], o[3][0]] for o in arg[1]])
         if op == "text_hist":
             return "Text(%r, spans=%r) then ops %r" % (t2s(arg[0][0]), arg[0][2], [o[0] for o in arg[1]])
     except Exception:
